@@ -109,6 +109,7 @@ pub fn replay(args: &Args) {
         let (sport, dport): (u16, u16) = match s["p"].as_str().unwrap() {
             "both4" => (0xf0b1, 0xf0b7),
             "one8" => (0xf012, 5683),
+            "dst8" => (5684, 0xf013),
             _ => (40001, 40002),
         };
         let size = s["z"].as_u64().unwrap() as usize;
